@@ -1,7 +1,11 @@
 (* C20 - the proved statements, each closed by [exact] on a lemma of Proofs*.v.
-   Statements are spelled out over Model.v / Spec.v only. *)
+   Statements are spelled out over Model.v (the code, line by line) and Spec.v
+   (the defining formulas over sample indices) only.  All are for every input
+   list (any length), every window size / lag / limit / threshold / step. *)
 From Coq Require Import String List Bool Arith ZArith QArith Qcanon.
-From AL Require Import Base.CaseLib C20.Model C20.Spec C20.Lib C20.ProofsMav.
+From AL Require Import Base.CaseLib C20.Model C20.Spec C20.Check C20.Lib.
+From AL Require Import C20.ProofsMav C20.ProofsAmdf C20.ProofsEnv C20.ProofsClip C20.ProofsZc C20.ProofsUw.
+From AL Require Import C20.ProofsLin C20.ProofsCheck.
 Import ListNotations.
 Open Scope Qc_scope.
 
@@ -17,16 +21,22 @@ Proof. exact maverage_general. Qed.
 Print Assumptions C20_maverage_general.
 
 (* With c = 1/size (or zero = 0) all three strategies agree with each other and
-   with the formula, which is then the mean of the last size samples. *)
+   with the formula ... *)
 Theorem C20_maverage_agree : forall c size zero xs, (1 <= size)%nat -> nq size * c = 1 \/ zero = 0 ->
   forall s, maverage s c size zero xs = Ok (mav_spec c size zero xs).
 Proof. exact maverage_agree. Qed.
 Print Assumptions C20_maverage_agree.
 
+(* ... which for c = 1/size is the mean of the last size samples. *)
 Theorem C20_mav_formula_mean : forall c size zero xs n, nq size * c = 1 ->
   mav_formula c size zero xs n = sum_upto (xat zero xs n) size / nq size.
 Proof. exact mav_formula_mean. Qed.
 Print Assumptions C20_mav_formula_mean.
+
+Theorem C20_maverage_size0 : forall s c zero xs,
+  maverage s c 0 zero xs = Err (match s with MFir => "TypeError" | _ => "ZeroDivisionError" end).
+Proof. exact maverage_size0. Qed.
+Print Assumptions C20_maverage_size0.
 
 (* ---------------------------------------------------------------- accumulate *)
 (* all three strategies: output n = x[0] + ... + x[n]; the empty input gives the empty output *)
@@ -34,9 +44,240 @@ Theorem C20_accumulate_running_sum : forall s xs, accumulate s xs = acc_spec xs.
 Proof. exact accumulate_running_sum. Qed.
 Print Assumptions C20_accumulate_running_sum.
 
-(* Non-vacuity *)
+(* ---------------------------------------------------------------- amdf *)
+(* lag > 0 (integral, or fractional with linear interpolation between the two
+   neighbouring lags), size >= 1, every c / zero / input: amdf is the moving
+   average (deque strategy, same c and zero) of |x[n] - x[n-lag]|. *)
+Theorem C20_amdf_spec : forall c size zero lag xs, (1 <= size)%nat -> 0 < lag ->
+  amdf c size zero lag xs = Ok (amdf_spec c size zero lag xs).
+Proof. exact amdf_is_spec. Qed.
+Print Assumptions C20_amdf_spec.
+
+(* lag = 0: with zero = 0 (the default) the formula still holds ... *)
+Theorem C20_amdf_lag0_zero0 : forall c size xs, (1 <= size)%nat ->
+  amdf c size 0 0 xs = Ok (amdf_spec c size 0 0 xs).
+Proof. exact amdf_lag0_zero0. Qed.
+Print Assumptions C20_amdf_lag0_zero0.
+
+(* ... in general the code averages |zero| (all-zero filter convention) ... *)
+Theorem C20_amdf_lag0 : forall c size zero xs, (1 <= size)%nat ->
+  amdf c size zero 0 xs = Ok (mav_spec_off MDeque c size zero (map (fun _ => qabs zero) xs)).
+Proof. exact amdf_lag0. Qed.
+Print Assumptions C20_amdf_lag0.
+
+(* ... which is not the formula when zero <> 0 (known finding C20-amdf-lag0-zero). *)
+Theorem C20_amdf_lag0_refuted : exists c size zero xs, (1 <= size)%nat /\
+  amdf c size zero 0 xs <> Ok (amdf_spec c size zero 0 xs).
+Proof. exact amdf_lag0_refuted. Qed.
+Print Assumptions C20_amdf_lag0_refuted.
+
+(* ---------------------------------------------------------------- envelope *)
+(* the one-pole low-pass recursion g / (1 + a1 z^-1) started at rest is
+   y[n] = g * sum_{k<=n} (-a1)^(n-k) u[k] *)
+Theorem C20_lowpass_closed_form : forall g a1 u, lowpass_call g a1 u = lowpass_spec g a1 u.
+Proof. exact lowpass_call_spec. Qed.
+Print Assumptions C20_lowpass_closed_form.
+
+(* envelope.abs = lowpass(|x|), envelope.squared = lowpass(x^2),
+   envelope.rms = the (symbolic) square root of lowpass(x^2), sample by sample *)
+Theorem C20_envelope_is_lowpass : forall s g a1 xs, envelope s g a1 xs = envelope_spec s g a1 xs.
+Proof. exact envelope_is_lowpass. Qed.
+Print Assumptions C20_envelope_is_lowpass.
+
+(* ---------------------------------------------------------------- clip *)
+Theorem C20_clip_formula : forall low high xs, clip low high xs = clip_spec low high xs.
+Proof. exact clip_eq_spec. Qed.
+Print Assumptions C20_clip_formula.
+
+Theorem C20_clip_bounds : forall low high xs ys, clip low high xs = Ok ys -> Forall (within low high) ys.
+Proof. exact clip_bounds. Qed.
+Print Assumptions C20_clip_bounds.
+
+Theorem C20_clip_idempotent : forall low high xs ys, clip low high xs = Ok ys -> clip low high ys = Ok ys.
+Proof. exact clip_idempotent. Qed.
+Print Assumptions C20_clip_idempotent.
+
+Theorem C20_clip_none_is_identity : forall xs, clip None None xs = Ok xs.
+Proof. exact clip_none_is_identity. Qed.
+Print Assumptions C20_clip_none_is_identity.
+
+Theorem C20_clip_length : forall low high xs ys, clip low high xs = Ok ys -> length ys = length xs.
+Proof. exact clip_length. Qed.
+Print Assumptions C20_clip_length.
+
+Theorem C20_clip_bad_limits : forall low high xs,
+  clip low high xs = Err "ValueError" <-> exists l h, low = Some l /\ high = Some h /\ h < l.
+Proof. exact clip_bad_limits. Qed.
+Print Assumptions C20_clip_bad_limits.
+
+Theorem C20_clip_total : forall low high xs,
+  (exists ys, clip low high xs = Ok ys) \/ clip low high xs = Err "ValueError".
+Proof. exact clip_total. Qed.
+Print Assumptions C20_clip_total.
+
+(* ---------------------------------------------------------------- zcross *)
+Theorem C20_zcross_length : forall h fs xs, length (zcross h fs xs) = length xs.
+Proof. exact zcross_length. Qed.
+Print Assumptions C20_zcross_length.
+
+Theorem C20_zcross_binary : forall h fs xs, Forall (fun y => y = 0%Z \/ y = 1%Z) (zcross h fs xs).
+Proof. exact zcross_binary. Qed.
+Print Assumptions C20_zcross_binary.
+
+(* output n = zc_out n, defined from the recursively defined current sign zc_sign *)
+Theorem C20_zcross_spec : forall h fs xs, zcross h fs xs = zcross_spec h fs xs.
+Proof. exact zcross_eq_spec. Qed.
+Print Assumptions C20_zcross_spec.
+
+(* 1 exactly at samples beyond the threshold on the side opposite to the current sign *)
+Theorem C20_zcross_one_iff : forall h fs xs n,
+  zc_out h fs xs n = 1%Z <->
+  zc_sign h fs xs n <> 0 /\ nth n xs 0 * zc_sign h fs xs n < - h.
+Proof. exact zc_out_one_iff. Qed.
+Print Assumptions C20_zcross_one_iff.
+
+(* the current sign: starts as first_sign's sign (undefined for 0) ... *)
+Theorem C20_zcross_sign_init : forall h fs xs,
+  zc_sign h fs xs 0 = if Qc_eqb fs 0 then 0 else sgn fs.
+Proof. exact zc_sign_init. Qed.
+Print Assumptions C20_zcross_sign_init.
+
+(* ... while undefined becomes the sign of the first sample outside [-h, h] ... *)
+Theorem C20_zcross_sign_start : forall h fs xs n, zc_sign h fs xs n = 0 ->
+  zc_sign h fs xs (S n) = if outside h (nth n xs 0) then sgn (nth n xs 0) else 0.
+Proof. exact zc_sign_start. Qed.
+Print Assumptions C20_zcross_sign_start.
+
+(* ... flips exactly at the samples that output 1 (hysteresis >= 0) ... *)
+Theorem C20_zcross_sign_flips : forall h fs xs n, 0 <= h -> zc_out h fs xs n = 1%Z ->
+  zc_sign h fs xs (S n) = - zc_sign h fs xs n.
+Proof. exact zc_sign_flips. Qed.
+Print Assumptions C20_zcross_sign_flips.
+
+(* ... and is kept at the samples that output 0. *)
+Theorem C20_zcross_sign_kept : forall h fs xs n, zc_sign h fs xs n <> 0 -> zc_out h fs xs n = 0%Z ->
+  zc_sign h fs xs (S n) = zc_sign h fs xs n.
+Proof. exact zc_sign_kept. Qed.
+Print Assumptions C20_zcross_sign_kept.
+
+(* ---------------------------------------------------------------- unwrap *)
+(* step <> 0: no exception, one output per input *)
+Theorem C20_unwrap_no_error : forall md step xs, step <> 0 -> snd (unwrap md step xs) = false.
+Proof. exact unwrap_no_error. Qed.
+Print Assumptions C20_unwrap_no_error.
+
+Theorem C20_unwrap_length : forall md step xs, step <> 0 ->
+  length (fst (unwrap md step xs)) = length xs.
+Proof. exact unwrap_length. Qed.
+Print Assumptions C20_unwrap_length.
+
+(* samples change only by integer multiples of step *)
+Theorem C20_unwrap_multiple_of_step : forall md step xs, step <> 0 ->
+  Forall2 (fun o x => is_multiple step (o - x)) (fst (unwrap md step xs)) xs.
+Proof. exact unwrap_multiple_of_step. Qed.
+Print Assumptions C20_unwrap_multiple_of_step.
+
+(* a sequence with no adjacent jump above max_delta is left untouched *)
+Theorem C20_unwrap_identity_below_max_delta : forall md step xs, step <> 0 -> no_jump md xs ->
+  fst (unwrap md step xs) = xs.
+Proof. exact unwrap_identity_below_max_delta. Qed.
+Print Assumptions C20_unwrap_identity_below_max_delta.
+
+(* step > 0: no adjacent output jump above max(max_delta, step/2) *)
+Theorem C20_unwrap_jump_bound : forall md step xs, 0 < step ->
+  jumps_le (qmax md (half step)) (fst (unwrap md step xs)).
+Proof. exact unwrap_jump_bound. Qed.
+Print Assumptions C20_unwrap_jump_bound.
+
+(* ---------------------------------------------------------------- non-vacuity
+   (list equalities are stated through the boolean equality of Check.v, which
+   compares the rational values; [rqlist_eqb a b = true <-> a = b]) *)
 Example C20_example_maverage :
-  maverage MDeque (qc 1 3) 3 (qc 1 1) [qc 3 1; qc 6 1; qc (-3) 1; qc 9 1]
-  = Ok [qc 5 3; qc 10 3; qc 2 1; qc 4 1].
-Proof. vm_compute. reflexivity. Qed.
+  rqlist_eqb (maverage MDeque (qc 1 3) 3 (qc 1 1) [qc 3 1; qc 6 1; qc (-3) 1; qc 9 1])
+             (Ok [qc 5 3; qc 10 3; qc 2 1; qc 4 1]) = true
+  /\ Qc_eqb (nq 3 * qc 1 3) 1 = true.
+Proof. split; vm_compute; reflexivity. Qed.
 Print Assumptions C20_example_maverage.
+
+(* lag 3/2, size 2: |x[n] - (x[n-1] + x[n-2])/2| averaged over two samples, zero = 1 *)
+Example C20_example_amdf :
+  rqlist_eqb (amdf (qc 1 2) 2 (qc 1 1) (qc 3 2) [qc 4 1; qc 0 1; qc 7 1])
+             (Ok [qc 2 1; qc 11 4; qc 15 4]) = true
+  /\ Qc_ltb 0 (qc 3 2) = true.
+Proof. split; vm_compute; reflexivity. Qed.
+Print Assumptions C20_example_amdf.
+
+Example C20_example_clip :
+  rqlist_eqb (clip (Some (qc (-1) 1)) None [qc (-3) 1; qc 1 2; qc 5 1])
+             (Ok [qc (-1) 1; qc 1 2; qc 5 1]) = true.
+Proof. vm_compute. reflexivity. Qed.
+Print Assumptions C20_example_clip.
+
+(* hysteresis 1/2, first_sign 0: the sign is found at the sample 1, the crossing
+   is reported at -1 (not at -1/4, inside the band) and again at 3 *)
+Definition C20_zc_xs : list Qc := [qc 1 4; qc 1 1; qc (-1) 4; qc (-1) 1; qc 0 1; qc 3 1].
+Example C20_example_zcross :
+  zcross (qc 1 2) 0 C20_zc_xs = [0; 0; 0; 1; 0; 1]%Z
+  /\ Qc_leb 0 (qc 1 2) = true
+  /\ zc_out (qc 1 2) 0 C20_zc_xs 3 = 1%Z
+  /\ Qc_eqb (zc_sign (qc 1 2) 0 C20_zc_xs 3) 0 = false
+  /\ Qc_eqb (zc_sign (qc 1 2) 0 C20_zc_xs 0) 0 = true.
+Proof. repeat split; vm_compute; reflexivity. Qed.
+Print Assumptions C20_example_zcross.
+
+(* max_delta 1, step 2: the jump 0 -> 4 is unwrapped to 0 -> 0, the tie 1/2 -> 3/2 (jump exactly
+   1 = step/2) is kept; a jump-free input is returned unchanged *)
+Example C20_example_unwrap :
+  qlist_eqb (fst (unwrap 1 (qc 2 1) [0; qc 4 1; qc 9 2; qc 11 2; qc 1 1])) [0; 0; qc 1 2; qc 3 2; qc 1 1] = true
+  /\ snd (unwrap 1 (qc 2 1) [0; qc 4 1; qc 9 2; qc 11 2; qc 1 1]) = false
+  /\ Qc_ltb 0 (qc 2 1) = true
+  /\ no_jump_b 1 [0; qc 1 2; qc 3 2; qc 1 1] = true
+  /\ no_jump_b 1 [0; qc 4 1; qc 9 2; qc 11 2; qc 1 1] = false.
+Proof. repeat split; vm_compute; reflexivity. Qed.
+Print Assumptions C20_example_unwrap.
+
+(* ---------------------------------------------------------------- linearity (symbolic samples) *)
+(* maverage (every strategy, every c) and accumulate are linear in (zero, samples):
+   a run on symbolic samples (LinForm) determines the output for every sample value *)
+Theorem C20_maverage_linear : forall s c size a b z1 z2 xs ys, (1 <= size)%nat -> length xs = length ys ->
+  maverage s c size (a * z1 + b * z2) (lcomb a b xs ys)
+  = Ok (lcomb a b (mav_spec_off s c size z1 xs) (mav_spec_off s c size z2 ys)).
+Proof. exact maverage_linear. Qed.
+Print Assumptions C20_maverage_linear.
+
+Theorem C20_accumulate_linear : forall s a b xs ys, length xs = length ys ->
+  accumulate s (lcomb a b xs ys) = lcomb a b (accumulate s xs) (accumulate s ys).
+Proof. exact accumulate_linear. Qed.
+Print Assumptions C20_accumulate_linear.
+
+(* ---------------------------------------------------------------- the boolean tests of Check.v *)
+Theorem C20_within_b_spec : forall low high y, within_b low high y = true <-> within low high y.
+Proof. exact within_b_spec. Qed.
+Print Assumptions C20_within_b_spec.
+
+Theorem C20_no_jump_b_spec : forall md xs, no_jump_b md xs = true <-> no_jump md xs.
+Proof. exact no_jump_b_spec. Qed.
+Print Assumptions C20_no_jump_b_spec.
+
+Theorem C20_is_multiple_b_spec : forall step d, step <> 0 ->
+  is_multiple_b step d = true <-> is_multiple step d.
+Proof. exact is_multiple_b_spec. Qed.
+Print Assumptions C20_is_multiple_b_spec.
+
+Theorem C20_rqlist_eqb_spec : forall a b, rqlist_eqb a b = true <-> a = b.
+Proof. exact rqlist_eqb_spec. Qed.
+Print Assumptions C20_rqlist_eqb_spec.
+
+Theorem C20_holds_env_sound : forall c, holds_env c = true ->
+  ev_obs c = Ok (envelope_spec (ev_s c) (ev_g c) (ev_a1 c) (ev_xs c)).
+Proof. exact holds_env_sound. Qed.
+Print Assumptions C20_holds_env_sound.
+
+(* empty inputs give empty outputs (accumulate.func / unwrap: since commit afb6835) *)
+Theorem C20_accumulate_empty : forall s, accumulate s [] = [].
+Proof. exact accumulate_empty. Qed.
+Print Assumptions C20_accumulate_empty.
+
+Theorem C20_unwrap_empty : forall md step, unwrap md step [] = ([], false).
+Proof. exact unwrap_empty. Qed.
+Print Assumptions C20_unwrap_empty.
